@@ -41,12 +41,12 @@ def step (s : St) (ws : List String) : St × String :=
   | ["host", o, id, a, c] => ({ s with objs := ⟨nat o, nat id, nat a, nat c⟩ :: s.objs.filter (fun h => h.obj != nat o) }, "ok")
   | ["addm", o] => match s.obj? (nat o) with
     | none => (s, "bad-op")
-    | some h => if h.invalid then (s, "crash") else
+    | some h => if h.invalid then (s, "crash:invalid-host") else
       let (r', e, ex) := s.r.addIfMissing h
       ({ s with r := r' }, toString e.obj ++ " " ++ toString ex ++ " " ++ snapshot r')
   | ["addu", o] => match s.obj? (nat o) with
     | none => (s, "bad-op")
-    | some h => if h.invalid then (s, "crash") else
+    | some h => if h.invalid then (s, "crash:invalid-host") else
       let (r', e) := s.r.addOrUpdate h
       ({ s with r := r' }, toString e.obj ++ " " ++ snapshot r')
   | ["rm", id] =>
